@@ -95,10 +95,15 @@ InDomain(o, x)   == /\ (x > o.rb[1] \/ (x = o.rb[1] /\ ~o.sl))
                     /\ (x < o.rb[o.n + 1] \/ (x = o.rb[o.n + 1] /\ ~o.su))
 \* A value inside the domain is reported in a class whose interval contains it (on a bound:
 \* either side); for an excluded domain end the call may refuse instead.
+\* The two look-ups describe the same partition: whichever side a bound is given to, the class
+\* whose value getValueCategory returns is the class whose index getCategoryIndex returns (and
+\* they refuse together).  No side is asserted: the documentation defines a class by "two
+\* bounds" without saying which one belongs to it.
 ProbeOk(o, q) ==
   LET x == q[1]  ok == Containing(o, x) IN
-  IF InDomain(o, x) THEN q[4] \in ok /\ q[5] \in ok
-  ELSE (q[4] = -2 \/ q[4] \in ok) /\ (q[5] = -2 \/ q[5] \in ok)
+  /\ q[4] = q[5]
+  /\ IF InDomain(o, x) THEN q[4] \in ok /\ q[5] \in ok
+     ELSE (q[4] = -2 \/ q[4] \in ok) /\ (q[5] = -2 \/ q[5] \in ok)
 Lookup(o) == \A k \in 1..Len(o.lk) : ProbeOk(o, o.lk[k])
 
 \* ---------------------------------------------------------------- cumulative class queries
